@@ -132,15 +132,22 @@ Definition C03_delivery_gap_free_full_statement : Prop :=
   forall h1 r v t o h2, st_hist s = h1 ++ EvDeliver r v t o :: h2 ->
     (exists given, In (EvReaderInit r v t given o) h2) \/ In (EvDeliver r v t (o - 1)) h2.
 
-(* quiescence: a stable generation whose readers drained every assigned partition to the
-   high watermark has delivered every record (liveness-flavoured; needs exclusive and total
-   assignments, which this model leaves to the environment) *)
-Definition C03_quiescent_all_delivered_full_statement : Prop :=
-  forall cfg ls s, cfg_start cfg = FirstOffset -> run (step cfg) init ls = Some s ->
-  forall t, (exists r p, In p (rd_readers (st_rd s r)) /\ pr_tp p = t /\
-                         pr_next p = Some (hw_of (st_hw s) t) /\ rd_msgs (st_rd s r) = []
-                         /\ rd_fetch (st_rd s r) = FIdle) ->
-  forall x, 0 <= x < hw_of (st_hw s) t -> exists r' v, In (EvDeliver r' v t x) (st_hist s).
+(* ---- quiescence.  The assignment of a generation is an environment label of the model, so
+   the needed fact about it is an explicit hypothesis: [assignment_covers_existing existing g h]
+   = every partition of the EXISTING subscribed topics appears in an assignment distributed in
+   generation g (the history checker evaluates its boolean form on what the real group leader
+   computed).  If moreover every member of generation g has drained the partitions assigned to
+   it (reader at the high watermark, nothing queued), every stored record of those partitions
+   has been delivered to some member.  Whether the members eventually drain (fairness, wall
+   clock) is outside the model and is exercised by the recorded histories under watchdogs. *)
+Theorem C03_quiescent_all_delivered : forall cfg ls s existing g, cfg_start cfg = FirstOffset ->
+  run (step cfg) init ls = Some s ->
+  assignment_covers_existing existing g (st_hist s) ->
+  (forall r mid asg t, In (EvAssign r mid g asg) (st_hist s) -> In t asg -> drained s r t) ->
+  forall t, In t existing -> forall x, 0 <= x < hw_of (st_hw s) t ->
+    exists r' v, In (EvDeliver r' v t x) (st_hist s).
+Proof. exact quiescent_all_delivered. Qed.
+Print Assumptions C03_quiescent_all_delivered.
 
 (* ---- non-vacuity: a run with two members, a rebalance moving the partition, a stale
    queued message delivered after the rebalance and committed through the new generation,
